@@ -683,7 +683,9 @@ func (d *Dials[T]) monitor(
 					})
 				}
 			case *watchErrorReport:
-				if !skipVerify && !d.params.CallGlobalCallbacksAfterVerificationEnabled {
+				// Global callbacks are only suppressed while verification is
+				// still delayed and the suppression option is set.
+				if !(skipVerify && d.params.CallGlobalCallbacksAfterVerificationEnabled) {
 					d.submitEvent(ctx, &watchErrorEvent[T]{
 						err: fmt.Errorf("error reported by source of type %T: %w",
 							v.source, v.err),
